@@ -18,6 +18,11 @@ CORRESPONDENCE = ("packing (recursion/src/types/proof.rs, pcs/fri/targets.rs Rec
 
 LINES_PER_CASE = 5
 
+# every full run must exercise all of these (uni-ZK became usable with fix C14-1; their honest proofs are
+# regression cases: if the circuit refuses them again the harness reports honest-proof-not-accepted:uni-zk)
+EXPECTED_SETUPS = ["bb_plain.uni", "bb_plain.batch", "bb_plain.tables", "bb_hid.uni", "bb_hid.batch",
+                   "bb_salted.uni", "bb_salted.batch"]
+
 
 def _read(p):
     with open(p) as fh:
@@ -80,6 +85,14 @@ def run(ctx):
                 hist[k] = hist.get(k, 0) + v
         samples += rep["samples"][:4]
         campaign += rep["campaign"]
+        if kw.get("campaign") == 1 and kw.get("setups", "all") == "all":
+            got = {c["setup"]: c for c in rep["campaign"]}
+            for st in EXPECTED_SETUPS:
+                c = got.get(st)
+                if c is None or (c["baseline_ok"] and c["perturbations"] < c["packed_positions"]):
+                    violations.append({"class": "campaign-setup-incomplete:" + st,
+                                       "what": f"campaign setup {st} did not perturb every packed position: {c}",
+                                       "replay": {"setup": st, "seed": kw["seed"], "label": ""}, "no_input": True})
         corpus_notes += rep.get("corpus_notes", [])
         # model side
         driver = os.path.join(ctx["driver_dir"], "p3r_driver_c14")
@@ -137,8 +150,8 @@ def run(ctx):
                    "optional next-row / preprocessed / random openings, 0-4 quotient chunks of 0-4 values, cap roots {1,2,4}, 0-3 FRI phases with "
                    "log-arity 1-3, 0-3 queries, 0-3 batch openings of 0-3 matrices, salts, hiding rounds, lookup terminals, preprocessed "
                    "commitment; distinct = distinct shape lines; every shape allocates, packs, builds and runs a real circuit and every one of its "
-                   "inputs is read back (none is trivial). perturbations: every packed position of 5 real proofs (7 once the uni-ZK defect is "
-                   "fixed), each judged by the native verifier and by the circuit runner",
+                   "inputs is read back (none is trivial). perturbations: every packed position of 7 real proofs (uni / batch x plain / hiding PCS / hiding PCS + salted MMCS, "
+                   "+ circuit tables), each judged by the native verifier and by the circuit runner",
            "samples": samples[:6], "input_distribution": hist,
            "traces_validated_against_impl": tot["lines"], "disagreements_checked": tot["disagreements"],
            "campaign": campaign, "corpus_notes": corpus_notes, "model_flags": model_flags,
@@ -200,6 +213,6 @@ MANIFEST_ENTRY = {
         "design_ref": "4/C14",
     },
     "level_note": "Lean kernel + 3 standard axioms; label distinctness checked at run time, not proved; consumption model is block-level; "
-                  "two crate-private target fields reached indirectly; uni-STARK ZK proofs cannot be perturbed until finding C14-1 is fixed "
-                  "(their honest proofs are refused by the circuit)",
+                  "two crate-private target fields reached indirectly"
+                  "",
 }
